@@ -70,9 +70,13 @@ def contracts():
     return d
 
 
-def add_core_items(u, stub=()):
-    """Emit the fpdec-core kernel items into unit `u`."""
+def add_core_items(u, stub=(), verify=False):
+    """Emit the fpdec-core kernel items into unit `u`.  Outside the home unit (`core_kernel`)
+    the kernel functions appear with the same contracts as external_body stubs: their bodies
+    are verified in the home unit, which is part of every property that depends on them."""
     cs = contracts()
+    if not verify:
+        stub = list(cs)
     u.item('core', 'rounding::enum RoundingMode')
     u.raw(R5_DEFAULT, 'R5')
     u.item('core', 'const MAX_N_FRAC_DIGITS')
@@ -89,5 +93,5 @@ def add_core_items(u, stub=()):
 
 def build():
     u = Unit('core_kernel', specs=['base.rs', 'rounding.rs'])
-    add_core_items(u)
+    add_core_items(u, verify=True)
     return u
